@@ -308,6 +308,7 @@ def build_p2sh(ctx, release=False):
 # ---------------------------------------------------------------- engines
 
 MAX_HANGS_PER_SHARD = 2
+MAX_ABORTS_PER_SHARD = 12
 DRIVER_MEMORY_CAP = 6 * 1024 ** 3
 
 
@@ -333,6 +334,7 @@ def _run_lines(exe, lines, timeout, label, extra_env=None):
     results = []
     idx = 0
     hangs = 0
+    aborts = 0
     n = len(lines)
     e = dict(os.environ)
     # the compiler clones its instruction buffer on every emit; without these glibc settings a 64 KB
@@ -380,6 +382,13 @@ def _run_lines(exe, lines, timeout, label, extra_env=None):
         if idx < n and len(outs) < len(chunk):
             results.append(sig)
             idx += 1
+            if sig.startswith("ABORT"):
+                aborts += 1
+                if aborts >= MAX_ABORTS_PER_SHARD:
+                    # a process that dies again and again (e.g. filling its address space in a loop that no longer stops) costs
+                    # its whole run time each time: the violation is established, the rest of the shard is not run
+                    results.extend(["NOHARNESS not-run-after-%d-aborts" % aborts] * (n - idx))
+                    idx = n
             if sig == "HANG":
                 hangs += 1
                 if hangs >= MAX_HANGS_PER_SHARD:
